@@ -81,4 +81,118 @@ theorem unmixPair_frame {depth : Nat} (hd : Depth depth) (mixRes : Nat) (hm : mi
         split <;> omega
     exact ⟨hor l h1 h2, hor r h3 h4⟩
 
+/-- the encoder's view of a pair, frame by frame -/
+def pairUV (depth mixRes : Nat) (lr : Int × Int) : Int × Int :=
+  if mixRes ≠ 0 then mixUV 2 (mixRes : Int) (pairIn depth lr.1 lr.2).1.1 (pairIn depth lr.1 lr.2).1.2 else (pairIn depth lr.1 lr.2).1
+
+theorem zipWith_map2 {α β γ : Type} (f : β → β → γ) (g : α → β) : ∀ (ls rs : List α),
+    List.zipWith f (ls.map g) (rs.map g) = (List.zip ls rs).map fun lr => f (g lr.1) (g lr.2)
+  | [], _ => by simp
+  | _ :: _, [] => by simp
+  | a :: ls, b :: rs => by simp [zipWith_map2 f g ls rs]
+
+theorem mixPairs_eq (depth mixRes : Nat) (ls rs : List Int) :
+    mixPairs depth (bytesShiftedOf depth) mixRes ls rs =
+      (((List.zip ls rs).map (pairUV depth mixRes)).map (·.1), ((List.zip ls rs).map (pairUV depth mixRes)).map (·.2),
+        (List.zip ls rs).map fun lr => (pairIn depth lr.1 lr.2).2) := by
+  unfold mixPairs
+  simp only []
+  rw [zipWith_map2, zipWith_map2]
+  simp only [Prod.mk.injEq, List.map_map]
+  refine ⟨?_, ?_, ?_⟩ <;> (apply List.map_congr_left; intro lr _; simp [pairUV, pairIn, Function.comp_def])
+
+/-- the encoder's matrixing without wrap-around: inputs of at most 25 bits -/
+theorem mixUV_small (mr : Nat) (hm : mr ≤ 4) (a b : Int) (ha : -16777216 ≤ a ∧ a < 16777216) (hb : -16777216 ≤ b ∧ b < 16777216) :
+    mixUV 2 (mr : Int) a b = (((mr : Int) * a + (4 - (mr : Int)) * b) / 4, a - b) := by
+  have hmr : mr = 0 ∨ mr = 1 ∨ mr = 2 ∨ mr = 3 ∨ mr = 4 := by omega
+  unfold mixUV asr
+  rcases hmr with rfl | rfl | rfl | rfl | rfl <;>
+  · simp only [Nat.cast_ofNat, Nat.cast_zero, Nat.cast_one, Int.reducePow, Int.reduceSub]
+    rw [w32_of_fits (x := a - b) (by omega) (by omega)]
+    first
+      | (rw [w32_of_fits (x := (4 : Int)) (by omega) (by omega)])
+      | (rw [w32_of_fits (x := (3 : Int)) (by omega) (by omega)])
+      | (rw [w32_of_fits (x := (2 : Int)) (by omega) (by omega)])
+      | (rw [w32_of_fits (x := (1 : Int)) (by omega) (by omega)])
+      | (rw [w32_of_fits (x := (0 : Int)) (by omega) (by omega)])
+    rw [w32_of_fits (x := _ * a) (by omega) (by omega), w32_of_fits (x := _ * b) (by omega) (by omega),
+      w32_of_fits (x := _ * a + _ * b) (by omega) (by omega)]
+
+/-- the matrixed values fit the pair's channel width (one bit more than a channel) -/
+theorem pairUV_fits {depth : Nat} (hd : Depth depth) (mixRes : Nat) (hm : mixRes ≤ 4) {l r : Int} (hl : I32 l) (hr : I32 r) :
+    Fits (depth - 8 * bytesShiftedOf depth + 1) (pairUV depth mixRes (l, r)).1 ∧ Fits (depth - 8 * bytesShiftedOf depth + 1) (pairUV depth mixRes (l, r)).2 := by
+  obtain ⟨⟨a1, a2⟩, ⟨b1, b2⟩⟩ := pairIn_small hd hl hr
+  -- tighter per depth: the inputs fit the channel width
+  have hin : Fits (depth - 8 * bytesShiftedOf depth) (pairIn depth l r).1.1 ∧ Fits (depth - 8 * bytesShiftedOf depth) (pairIn depth l r).1.2 := by
+    obtain ⟨h1, h2⟩ := hl
+    obtain ⟨h3, h4⟩ := hr
+    unfold Fits pairIn asr
+    rcases hd with rfl | rfl | rfl | rfl <;> simp [bytesShiftedOf] <;> omega
+  unfold pairUV
+  dsimp only
+  rw [show (pairIn depth l r).1 = ((pairIn depth l r).1.1, (pairIn depth l r).1.2) from rfl]
+  generalize (pairIn depth l r).1.1 = a at *
+  generalize (pairIn depth l r).1.2 = b at *
+  have hmr : mixRes = 0 ∨ mixRes = 1 ∨ mixRes = 2 ∨ mixRes = 3 ∨ mixRes = 4 := by omega
+  by_cases h0 : mixRes = 0
+  · subst h0
+    simp only [ne_eq, not_true_eq_false, if_false]
+    unfold Fits at hin ⊢
+    rcases hd with rfl | rfl | rfl | rfl <;> simp [bytesShiftedOf] at hin ⊢ <;> omega
+  · simp only [h0, ne_eq, not_false_eq_true, if_true]
+    rw [mixUV_small mixRes hm a b (by omega) (by omega)]
+    unfold Fits at hin ⊢
+    rcases hd with rfl | rfl | rfl | rfl <;> rcases hmr with rfl | rfl | rfl | rfl | rfl <;> simp [bytesShiftedOf] at hin ⊢ <;> omega
+
+/-! ## the interleaved shifted-off bytes -/
+
+def interleave (sh : List (Nat × Nat)) : List Nat := sh.flatMap fun ab => [ab.1, ab.2]
+
+theorem pairUp_interleave : ∀ sh : List (Nat × Nat), pairUp (interleave sh) = sh
+  | [] => rfl
+  | (a, b) :: rest => by simp [interleave, pairUp, List.flatMap_cons] ; exact pairUp_interleave rest
+
+theorem interleave_length (sh : List (Nat × Nat)) : (interleave sh).length = 2 * sh.length := by
+  induction sh with
+  | nil => rfl
+  | cons a sh ih => simp [interleave, List.flatMap_cons] at ih ⊢; omega
+
+theorem bitsOf_mod2 (v : Nat) : ∀ (n m : Nat), n ≤ m → bitsOf (v % 2 ^ m) n = bitsOf v n
+  | 0, _, _ => rfl
+  | n + 1, m, h => by
+    simp only [bitsOf]
+    rw [bitsOf_mod2 v n m (by omega)]
+    congr 2
+    have e : 2 ^ m = 2 ^ n * 2 ^ (m - n) := by rw [← Nat.pow_add]; congr 1; omega
+    rw [e, Nat.mod_mul_right_div_self]
+    have : 2 ∣ 2 ^ (m - n) := ⟨2 ^ (m - n - 1), by rw [← Nat.pow_succ']; congr 1; omega⟩
+    rw [Nat.mod_mod_of_dvd _ this]
+
+theorem pair_field_bits (s a b : Nat) (hb : b < 2 ^ s) : bitsOf (a * 2 ^ s + b) (2 * s) = bitsOf a s ++ bitsOf b s := by
+  rw [show 2 * s = s + s by omega, bitsOf_split]
+  have h1 : (a * 2 ^ s + b) / 2 ^ s = a := by
+    rw [Nat.add_comm, Nat.add_mul_div_right _ _ (Nat.pow_pos (by decide)), Nat.div_eq_of_lt hb]; simp
+  have h2 : bitsOf (a * 2 ^ s + b) s = bitsOf b s := by
+    rw [← bitsOf_mod2 _ s s (Nat.le_refl _)]
+    congr 1
+    rw [Nat.add_comm, Nat.add_mul_mod_self_right, Nat.mod_eq_of_lt hb]
+  rw [h1, h2]
+
+theorem shift_bits_eq (s : Nat) (sh : List (Nat × Nat)) (h : ∀ ab ∈ sh, ab.2 < 2 ^ s) :
+    (sh.flatMap fun ab => bitsOf (ab.1 * 2 ^ s + ab.2) (2 * s)) = (interleave sh).flatMap fun x => bitsOf x s := by
+  induction sh with
+  | nil => rfl
+  | cons ab sh ih =>
+    simp only [List.flatMap_cons, interleave]
+    rw [pair_field_bits s ab.1 ab.2 (h ab (by simp)), ih (fun x hx => h x (by simp [hx]))]
+    simp [interleave, List.flatMap_cons]
+
+theorem zip_map_same {α β γ : Type} (f : α → β) (g : α → γ) : ∀ l : List α, List.zip (l.map f) (l.map g) = l.map fun x => (f x, g x)
+  | [] => rfl
+  | a :: l => by simp [zip_map_same f g l]
+
+theorem zip_map_replicate {α β γ : Type} (f : α → β) (c : γ) : ∀ l : List α, List.zip (l.map f) (List.replicate l.length c) = l.map fun x => (f x, c)
+  | [] => rfl
+  | a :: l => by simp [List.replicate_succ, zip_map_replicate f c l]
+
 end Sf.AlacCore
